@@ -5,6 +5,7 @@ import Uom.Proofs.BodyEq.Arith
 import Uom.Proofs.BodyEq.Mixed
 import Uom.Proofs.BodyEq.Cmp
 import Uom.Proofs.FloatOps
+import Uom.Proofs.OpsOracleSound
 /-!
 # C06 — results do not depend on the base units operands happen to be stored in
 
@@ -129,6 +130,49 @@ theorem cmp_float (f : Fmt) (h4 : 4 ≤ f.p) (l r a b : Fl) (H : Proofs.ChangeBa
       some (if a.toRat < b.toRat * r.toRat / l.toRat then -1
         else if a.toRat = b.toRat * r.toRat / l.toRat then 0 else 1) :=
   Proofs.cmp_mixed_sound h4 H ha hgap
+
+/-! ### the executable operator oracle accepts the model, for every input
+
+`oracleBinFl` (Uom/Model/OpsOracle.lean) is what the driver evaluates on the implementation's observed
+results of mixed-base `+ − × ÷ %` and comparisons.  For every canonical binary64 / binary32 operands
+and base factors, whatever the model computes (printed the way the harness prints it) is never
+rejected — so a run with `DIFF = 0` cannot raise an oracle alarm, and the tolerances are consequences of
+the rounding model.  The proof found a real hole in the oracle as first written: its overflow escape
+ignored the tolerance, and four kernel-checked binary32 cases show it could have rejected the model
+(`oracle_old_escape_rejected_the_model`); the oracle now in use is the repaired one, and the repair
+loses no rejection (`Proofs.oracleBinFl_fail_imp_old`). -/
+
+theorem oracle_accepts_ops_f64 (l r a b : Fl)
+    (hca : Fl.Canonical b64 a) (hcb : Fl.Canonical b64 b) (hcl : Fl.Canonical b64 l) (hcr : Fl.Canonical b64 r)
+    (form : BinForm) (obs : String)
+    (hobs : Tri.showRes (flTy "f64" b64) (binOpOn (flTy "f64" b64) form l r a b) = some obs) (why : String) :
+    oracleBinFl b64 form.raw l r a b obs ≠ .fail why :=
+  Proofs.oracleBinFl_sound_f64 hca hcb hcl hcr form obs hobs why
+
+theorem oracle_accepts_ops_f32 (l r a b : Fl)
+    (hca : Fl.Canonical b32 a) (hcb : Fl.Canonical b32 b) (hcl : Fl.Canonical b32 l) (hcr : Fl.Canonical b32 r)
+    (form : BinForm) (obs : String)
+    (hobs : Tri.showRes (flTy "f32" b32) (binOpOn (flTy "f32" b32) form l r a b) = some obs) (why : String) :
+    oracleBinFl b32 form.raw l r a b obs ≠ .fail why :=
+  Proofs.oracleBinFl_sound_f32 hca hcb hcl hcr form obs hobs why
+
+/-- kind conversion (`oracleFromFl`, used by C15 as well) -/
+theorem oracle_accepts_kind_from (f : Fmt) (hf : f.WF) (h4 : 4 ≤ f.p) (l r a : Fl) (hca : Fl.Canonical f a)
+    (sameBase : Bool) (hsame : sameBase = true → l = r ∧ l.isFinite = true ∧ l.isZero = false) (why : String) :
+    oracleFromFl f sameBase l r a (kindFromOn (flS f) l r a) ≠ .fail why :=
+  Proofs.oracleFromFl_sound hf h4 hca sameBase hsame why
+
+/-- the oracle as first written could reject the model: `a + change_base(b)` overflows to `+∞` while the
+    exact sum is still 0.62 u below `MAX` (binary32 witness; `−`, `×`, `÷` have witnesses too) -/
+theorem oracle_old_escape_rejected_the_model :
+    binOpOn (flTy "f32" b32) .add Proofs.cexAdd.l Proofs.cexAdd.r Proofs.cexAdd.a Proofs.cexAdd.b = .ok (.val (Fl.inf false)) ∧
+    ∃ why, Proofs.oracleBinFlOld b32 .add Proofs.cexAdd.l Proofs.cexAdd.r Proofs.cexAdd.a Proofs.cexAdd.b (flHex b32 (Fl.inf false)) = .fail why :=
+  Proofs.oracleBinFlOld_rejects_overflow_add
+
+/-- … and the repaired oracle guards exactly those cases -/
+theorem oracle_now_guards_those_cases (why : String) :
+    oracleBinFl b32 .add Proofs.cexAdd.l Proofs.cexAdd.r Proofs.cexAdd.a Proofs.cexAdd.b (flHex b32 (Fl.inf false)) ≠ .fail why :=
+  (Proofs.oracleBinFl_guards_overflow_cases why).1
 
 /-! ### tie to the source: the function bodies regenerated from /repo/src on this run
 
